@@ -154,3 +154,31 @@ theorem segFactor_congr [Zero K] [Mul K] (ph : R → K) (amp : Attr K) (opd : At
   unfold segFactor; rw [h]
 
 end Lentil
+
+namespace Lentil
+variable {K : Type}
+
+/-- an array field times a one-element field is never dropped and keeps the array's extent -/
+theorem mul_const_some [Mul K] (f q : Fld K) (hf : f.size1 = false) (hq : q.size1 = true)
+    (hpos : 0 < f.arr.s0 ∧ 0 < f.arr.s1) :
+    ∃ p, f.mul q = some p ∧ p.extent = f.extent := by
+  have hv := f.extent_valid hpos
+  have hint : intersect f.extent f.extent = true := by rw [intersect_iff']; omega
+  have hbe : (q.broadcastTo f).extent = f.extent := rfl
+  have h1 : f.mul q = f.mulArr (q.broadcastTo f) := by
+    unfold Fld.mul
+    simp only [hf, hq, Bool.false_and, Bool.false_eq_true, if_false, if_true]
+  rw [h1]
+  unfold Fld.mulArr
+  simp only [hbe, hint, if_true]
+  refine ⟨_, rfl, ?_⟩
+  show arrayExtent _ _ _ _ = _
+  rw [mulArr_extent f.extent f.extent hint, intersectionExtent_eq]
+  cases hfe : f.extent; simp
+
+theorem extent_shape_eq (p f : Fld K) (h : p.extent = f.extent) : p.arr.s0 = f.arr.s0 ∧ p.arr.s1 = f.arr.s1 := by
+  unfold Fld.extent at h
+  rw [arrayExtent_eq, arrayExtent_eq, Extent.mk.injEq] at h
+  omega
+
+end Lentil
